@@ -510,7 +510,7 @@ func (ex *Exec) execIndexAddr(fr *Frame, st *State, reach string, x *ssa.IndexAd
 	switch bt := x.X.Type().Underlying().(type) {
 	case *types.Slice:
 		ex.boundsOblige(fr, reach, x.Pos(), idx, base.L[2], "index out of range (slice)")
-		abs := ex.sc.define("ix", sInt, mkAdd(base.L[1], idx))
+		abs := ex.sc.define("ix", sInt, idxAdd(base.L[1], idx))
 		fr.regs[x] = Val{T: x.Type(), LV: &LValue{Kind: lvElem, Root: bt.Elem(), Ref: base.L[0], Idx: abs, T: bt.Elem(),
 			Lim: ex.sc.define("lim", sInt, mkAdd(base.L[1], base.L[2]))}}
 	case *types.Pointer:
